@@ -24,6 +24,12 @@ def generate(rng, tier):
     out += c05.generate(rng, "quick")[:200] if tier == "quick" else c05.generate(rng, tier)[:200 * n]
     out += [sc.gen_static(rng, nest_depth=2, faults=True) for _ in range(80 * n)]
     out += [sc.gen_dynamic(rng, faults=(rng.random() < 0.3)) for _ in range(80 * n)]
+    # histories of runs on one Doist, limits that expire exactly in the completing cycle
+    for _ in range(80 * n):
+        p = sc.gen_static(rng, n_leaves=rng.randint(1, 3), nest_depth=0, faults=False, tocks="dyadic", limit_p=1.0)
+        k = max((len(d["script"]) for d in p["defs"].values() if d["kind"] != "nest"), default=2)
+        p["limit"] = p["tock"] * rng.choice([k - 2, k - 1, k, k - 1, k - 1]) or p["tock"]
+        out.append(sc.add_reruns(rng, p) if rng.random() < 0.5 else p)
     return out
 
 
@@ -49,7 +55,9 @@ def oracle(case, obs):
 
 
 def to_coq(case, obs):
-    return f"({sc.to_coq(case, obs['do'])}, {sc.to_coq(case, obs['ado'])})"
+    a = copy.deepcopy(case); a["mode"] = "do"
+    b = copy.deepcopy(case); b["mode"] = "ado"
+    return f"({sc.to_coq(a, obs['do'])}, {sc.to_coq(b, obs['ado'])})"
 
 
 def classify(case, obs, why):
